@@ -204,4 +204,29 @@ def run(tier, seed=0, shard=(0, 1)):
         if idx % shard[1] != shard[0] or (tier == 'quick' and (idx // shard[1]) % 5):
             continue
         check_import(rep, combo, tkc)
+    # two-qubit gates between every ordered pair of 4 and 5 qubits (units far apart, both orders): measurement-free,
+    # so the pure part of the imported circuit (everything before the final discards) is compared as a state vector
+    for n in (4, 5):
+        for a, b in itertools.permutations(range(n), 2):
+            for name, p in (('CX', ()), ('CRz', (0.7,))):
+                idx += 1
+                if idx % shard[1] != shard[0]:
+                    continue
+                c = pytket.Circuit(n)
+                for q in range(n):
+                    c.Rx(0.1 + 0.2 * q, q)
+                getattr(c, name)(*(list(p) + [a, b]))
+                c.Rz(0.3, b)
+                r = 'pytket: Rx on all; %s(%d, %d); Rz(.3, %d) on %d qubits' % (name, a, b, b, n)
+                rep.case(r)
+                try:
+                    d = tk.from_tk(c)
+                except Exception as e:
+                    rep.fail('C13:from_tk.raises', 'from_tk raised %s: %s' % (type(e).__name__, e), r)
+                    continue
+                k = min([i for i, bx in enumerate(d.boxes) if isinstance(bx, Discard)] or [len(d)])
+                got = numpy.array(d[:k].eval().array, dtype=complex).flatten()
+                want = tksim.statevector(c)
+                if got.shape != want.shape or not numpy.allclose(got, want, atol=1e-9):
+                    rep.fail('C13:import.computes.far_units', 'the imported circuit does not compute the tket circuit', r)
     return rep.result()
